@@ -25,10 +25,10 @@ type Solver struct {
 	log      io.Writer
 
 	queries, nSat, nUnsat, nUnknown int
-	solveTime                      time.Duration
-	syncTime                       time.Duration
-	timeoutMs                      int
-	name                           string
+	solveTime                       time.Duration
+	syncTime                        time.Duration
+	timeoutMs                       int
+	name                            string
 	// scopedDecls: declarations and definitions live in the scope they were made in
 	// (no :global-declarations); they are forgotten on pop and re-sent on demand
 	scopedDecls bool
